@@ -1,0 +1,48 @@
+//go:build verif
+
+package client
+
+// Contracts for govc (see /verif/DESIGN.md). Comment-only file: no executable code.
+
+// C19: the bundled client reports what the server answered: 200 is success; for the batch operations 200 and 207
+// both carry the per-name outcome map, which is decoded and returned; every other status is reported as an error.
+//@ define answered() bool = httpCalls() == old(httpCalls()) + 1 && lastHttpErr() == nil
+
+//@ func (p *PcClient) stopProcess
+//@   ensures at-most-one-request: httpCalls() <= old(httpCalls()) + 1
+//@   ensures ok: answered() && lastResp().StatusCode == 200 ==> result == nil
+//@   ensures refused: answered() && lastResp().StatusCode != 200 ==> result != nil
+//@   ensures transport: httpCalls() == old(httpCalls()) + 1 && lastHttpErr() != nil ==> result == lastHttpErr()
+//@ func (p *PcClient) startProcess
+//@   ensures at-most-one-request: httpCalls() <= old(httpCalls()) + 1
+//@   ensures ok: answered() && lastResp().StatusCode == 200 ==> result == nil
+//@   ensures refused: answered() && lastResp().StatusCode != 200 ==> result != nil
+//@   ensures transport: httpCalls() == old(httpCalls()) + 1 && lastHttpErr() != nil ==> result == lastHttpErr()
+//@ func (p *PcClient) restartProcess
+//@   ensures at-most-one-request: httpCalls() <= old(httpCalls()) + 1
+//@   ensures ok: answered() && lastResp().StatusCode == 200 ==> result == nil
+//@   ensures refused: answered() && lastResp().StatusCode != 200 ==> result != nil
+//@   ensures transport: httpCalls() == old(httpCalls()) + 1 && lastHttpErr() != nil ==> result == lastHttpErr()
+//@ func (p *PcClient) scaleProcess
+//@   ensures at-most-one-request: httpCalls() <= old(httpCalls()) + 1
+//@   ensures ok: answered() && lastResp().StatusCode == 200 ==> result == nil
+//@   ensures refused: answered() && lastResp().StatusCode != 200 ==> result != nil
+//@   ensures transport: httpCalls() == old(httpCalls()) + 1 && lastHttpErr() != nil ==> result == lastHttpErr()
+//@ func (p *PcClient) stopProcesses
+//@   ensures at-most-one-request: httpCalls() <= old(httpCalls()) + 1
+//@   ensures outcome-map: answered() && (lastResp().StatusCode == 200 || lastResp().StatusCode == 207) && lastDecodeErr() == nil ==> result1 == nil && decodes() == old(decodes()) + 1
+//@   ensures refused: answered() && lastResp().StatusCode != 200 && lastResp().StatusCode != 207 ==> result1 != nil && result0 == nil
+//@   ensures transport: httpCalls() == old(httpCalls()) + 1 && lastHttpErr() != nil ==> result1 == lastHttpErr() && result0 == nil
+//@ func (p *PcClient) updateProject
+//@   ensures at-most-one-request: httpCalls() <= old(httpCalls()) + 1
+//@   ensures outcome-map: answered() && (lastResp().StatusCode == 200 || lastResp().StatusCode == 207) && lastDecodeErr() == nil ==> result1 == nil && decodes() == old(decodes()) + 1
+//@   ensures refused: answered() && lastResp().StatusCode != 200 && lastResp().StatusCode != 207 ==> result1 != nil && result0 == nil
+//@   ensures transport: httpCalls() == old(httpCalls()) + 1 && lastHttpErr() != nil ==> result1 == lastHttpErr() && result0 == nil
+//@ func (p *PcClient) reloadProject
+//@   ensures at-most-one-request: httpCalls() <= old(httpCalls()) + 1
+//@   ensures outcome-map: answered() && (lastResp().StatusCode == 200 || lastResp().StatusCode == 207) && lastDecodeErr() == nil ==> result1 == nil && decodes() == old(decodes()) + 1
+//@   ensures refused: answered() && lastResp().StatusCode != 200 && lastResp().StatusCode != 207 ==> result1 != nil && result0 == nil
+//@   ensures transport: httpCalls() == old(httpCalls()) + 1 && lastHttpErr() != nil ==> result1 == lastHttpErr() && result0 == nil
+//@ func (p *PcClient) getProcessState
+//@   ensures ok: answered() && lastResp().StatusCode == 200 && lastDecodeErr() == nil ==> result1 == nil && result0 != nil
+//@   ensures refused: answered() && lastResp().StatusCode != 200 ==> result1 != nil && result0 == nil
